@@ -72,7 +72,8 @@ def bind(op, handle, inst=None):
 
 def strip_ptr(e):
     """trace entry without addresses / line index"""
-    return {k: v for k, v in e.items() if k not in ("i", "p")}
+    # errno is only meaningful where a call documents it; the executor carries it from call to call like a real program
+    return {k: v for k, v in e.items() if k not in ("i", "p", "errno")}
 
 
 class C16:
@@ -234,7 +235,49 @@ class C16:
                     break
         return Outcome(classes=cl, nontrivial=nt, failure=fail, sample=sample)
 
+    def check_privacy(self, case, get_ex):
+        """a print callback / annotation / value set on one instance of a multi section must not show in a sibling created later"""
+        s = Script()
+        emit_schema(s, 0, HAND["c16"])
+        s.add("init", 1, 0, F_COMMENTS)
+        s.add("addtsec", 1, hx("tm"), hx("a"), 40)
+        for line in case["on_a"]:
+            s.add(*line)
+        s.add("addtsec", 1, hx("tm"), hx("b"), 41)
+        s.add("parse_buf", 1, hx("tm c { }\n"))
+        s.add("getsec", 1, hx("tm=c"), 42)
+        ib = s.add("print", 41)
+        ic = s.add("print", 42)
+        s.add("init", 2, 0, F_COMMENTS)
+        s.add("addtsec", 2, hx("tm"), hx("b"), 43)
+        ir = s.add("print", 43)
+        s.add("free", 1)
+        s.add("free", 2)
+        r = get_ex("asan").run(s)
+        t = by_index(r.trace)
+        if not r.clean:
+            return Outcome(failure=Failure("privacy/die/%s" % r.death(), r.stderr.decode("latin-1")[:1500]), classes=["privacy"])
+        ref = t[ir]["text"]
+        fail = None
+        for nm, idx in (("b", ib), ("c", ic)):
+            if t[idx]["text"] != ref:
+                fail = Failure("privacy/sibling-created-later-differs", "after %r on instance a, the later instance %s prints %r; a fresh instance prints %r" % (
+                    case["on_a"], nm, bytes.fromhex(t[idx]["text"]).decode("latin-1"), bytes.fromhex(ref).decode("latin-1")))
+                break
+        return Outcome(classes=["privacy"], nontrivial=True, failure=fail, sample={"on_a": case["on_a"]})
+
+    def privacy_cases(self):
+        H = hx
+        return [{"kind": "privacy", "on_a": ops} for ops in (
+            [["printfunc", 1, H("tm|x"), 1]], [["printfunc", 1, H("tm=a|x"), 1]], [["printfunc", 40, H("x"), 1]],
+            [["printfunc", 1, H("tm|zl"), 1]], [["setcomment", 1, H("tm|y"), H("only a")]], [["setcomment", 40, H("x"), H("only a")]],
+            [["setstr", 1, H("tm|y"), 0, H("only a")]], [["addlist", 40, H("zl"), "s", 1, H("only a")]],
+            [["addtsec", 40, H("deep"), H("only-a")]], [["setmulti", 1, H("tm=a|zl"), 2, H("m1"), H("m2")]],
+            [["printfunc", 1, H("tm|x"), 1], ["setcomment", 1, H("tm|x"), H("c")], ["setint", 1, H("tm|x"), 0, H("99")]])]
+
     def check_case(self, case, get_ex):
+        if case.get("kind") == "privacy":
+            return self.check_privacy(case, get_ex)
         if case.get("kind") == "interleave":
             return self.check_interleave(case, get_ex)
         return self.check_poison(case, get_ex)
@@ -278,6 +321,7 @@ class C16:
     def run(self, r):
         r.run_cases([{"schema": "c16", "flags": f, "text": POISON_TEXT} for f in (0, F_COMMENTS)] +
                     [{"schema": k, "flags": 0, "text": ""} for k in ("basic", "sections", "funcs", "ptrs", "keyval", "deprecated", "callbacks", "mixed")], chunksize=1)
+        r.run_cases(self.privacy_cases(), chunksize=1)
         r.run_cases(self.interleave_cases(r.tier), chunksize=10)
         r.run_hypothesis(20000 if r.tier == "quick" else 500000)
 
